@@ -52,6 +52,8 @@ def bmp_classes(f, b):
                 key = 'four'
             elif fn == 'EncoderResult::unmappable_from_bmp':
                 key = 'unmappable'
+            elif fn.endswith('::encode_hanzi'):
+                key = 'hanzi'
             if key:
                 out[key] = out.get(key, ISet()) | reach
                 # boolean gates on self fields controlling this block (e.g. gb18030 `extended`)
@@ -104,6 +106,11 @@ def run(rep, f, c, rule):
                 rep.ob(rule, fn + ':euro-gate', gates.get('one:80') == {('extended', False)}, 'the single-byte euro must be gated by !extended (GBK only): %r' % gates.get('one:80'), site, None, c)
                 rep.ob(rule, fn + ':four-byte-gate', ('extended', False) not in gates.get('four', set()) and bool(cl.get('four')),
                        'four-byte output must not be reachable when !extended (GBK)', site, {'gates': sorted(map(str, gates.get('four', [])))}, c)
+                # the unified-ideograph block U+4E00-U+9FA5, and nothing else, goes to the hanzi encoder (range interpolation / the
+                # direct table): U+9FA6 on is in the ranges part of gb18030
+                if 'hanzi' in cl:
+                    rep.ob(rule, fn + ':hanzi-block', cl['hanzi'] == I((0x4E00, 0x9FA5)),
+                           'the characters routed to encode_hanzi are %r; the unified ideographs are U+4E00-U+9FA5' % cl['hanzi'], site, {'set': repr(cl['hanzi'])}, c)
                 un = cl.get('unmappable', ISet())
                 rep.ob(rule, fn + ':E5E5', 0xE5E5 in un and not (un & I((0x4E00, 0x9FA5))), 'U+E5E5 must be unmappable and the unified ideographs never: %r' % un, site, None, c)
     rep.floor(rule, 'encoder BMP arms analysed', n, 10, c)
